@@ -5,6 +5,10 @@ VERIF = os.path.dirname(os.path.dirname(os.path.abspath(__file__)))
 
 CLAIMS = {
  # id: (category, text, level_note, technique, design_ref)
+ 'C06': ('other',
+         'BufferedFd::send and onWriteCallback under CBMC contracts with a ghost byte stream: wire ++ send queue == accepted bytes for every result of write(2) (short, zero, EAGAIN), send-complete only on an empty queue, write event armed whenever Running with queued data (also for data queued before enable and for re-entrant callbacks); enable/disable state contracts. Proved modularly against the util::Buffer and util::Fd contracts, which are re-checked in the same run.',
+         'Trusted: printer, CBMC, write(2)/FdEvent stubs (any legal result), user callbacks modelled as havoc-under-invariant (rely/guarantee). Read path and the TCP classes are not covered; liveness only through the arming invariant.',
+         'CBMC function contracts (goto-instrument --dfcc) with ghost stream state on mechanically extracted C', '6 C06'),
  'C07': ('proof',
          'Every member of util::Buffer (constructors, destructor, assignments, swap, reset, ensureWritableSize, hasWritten, append, hasRead, hasReadAll, fetch, shrink, cloneFrom) is under a CBMC function contract: representation invariant, abstract FIFO effect on (readable size, tracked byte at an arbitrary offset), frame, and memory safety for all sizes < 2^40. The FIFO property for every operation mix follows by induction over the history.',
          'Trusted: clang-AST->C printer, CBMC+SAT, weak memcpy/memmove models (weaker than libc), allocator never fails; induction over histories is a paper step.',
